@@ -7,11 +7,11 @@
 package main
 
 import (
-	"reflect"
 	"flag"
 	"fmt"
 	"os"
 	"path/filepath"
+	"reflect"
 	"sort"
 	"strconv"
 	"strings"
